@@ -271,8 +271,8 @@ def rule_window(check):
     R = "WINDOW"
     check.rule(R, "a literal is recorded iff len(value) > 10 && len(value) <= 256 (bytes of Str.value); locations are lookup_char_pos(span.lo) with line unchanged and column + 1")
     prog = check.prog
-    d = prog.fn("LiteralVisitor::default")
-    lits = [n for n in hir.walk(d.body) if n.get("k") == "Struct" and (n["res"].get("path") or "").endswith("LiteralVisitor")]
+    # wherever the collector is constructed (`default`, `new`, an `impl Default`)
+    lits = [n for d in prog.user_fns if d.body is not None and not d.rec.get("gen") and not d.rec.get("in_test") for n in hir.walk(d.body) if n.get("k") == "Struct" and (n["res"].get("path") or "").endswith("LiteralVisitor")]
     vals = {}
     for n in lits:
         for fl in n["fields"]:
